@@ -114,9 +114,6 @@ class TcpConnection():
             self.tracking_events_count += TRACKING_SOCKET_EVENTS_TIMEOUT
 
             for key, mask in self.events:
-                if key.data is not None:
-                    self.data_stream += key.data
-
                 if mask & selectors.EVENT_WRITE:
                     tcp_connection.debug(f"Selector notified EVENT_WRITE")
                     self.write()
@@ -128,7 +125,22 @@ class TcpConnection():
 
     def _set_selector_events_mask(self, mode: Literal["r", "w", "rw"], msg: Any = None) -> None:
         self.lock.acquire()
+
+        #: The data stream to be sent is kept by the connection itself (and 
+        #: not by the selector key, which is replaced on every update): it is 
+        #: appended under the lock, so it can neither be dropped by a 
+        #: concurrent update nor be picked up twice.
+        if msg and mode in ("w", "rw"):
+            self.data_stream += msg
+
         if mode == "r":
+            if self.data_stream or self._send_buffer:
+                tcp_connection.debug(f"[Socket-{self.sock_id}] There is "\
+                                     f"still data to be sent, keeping "\
+                                     f"selector events mask")
+                self.lock.release()
+                return
+
             tcp_connection.debug(f"[Socket-{self.sock_id}] Updating "\
                                  f"selector events mask [READ]")
 
@@ -142,7 +154,7 @@ class TcpConnection():
                                  f"selector events mask [WRITE]")
 
             self.events_mask = selectors.EVENT_WRITE
-            self.selector.modify(self.sock, self.events_mask, data=msg)
+            self.selector.modify(self.sock, self.events_mask)
             self.write_mode_on.set()
             self.read_mode_on.clear()
 
@@ -152,7 +164,7 @@ class TcpConnection():
                                  f"selector events mask [READ/WRITE]")
 
             self.events_mask = selectors.EVENT_READ | selectors.EVENT_WRITE
-            self.selector.modify(self.sock, self.events_mask, data=msg)
+            self.selector.modify(self.sock, self.events_mask)
             self.write_mode_on.set()
             self.read_mode_on.set()
 
@@ -183,13 +195,15 @@ class TcpConnection():
 
 
     def write(self) -> None:
-        if not self.send_data_stream_queued and self.data_stream:
+        self.lock.acquire()
+        if self.data_stream:
             self._send_buffer += self.data_stream
             self.data_stream = b""
             self.send_data_stream_queued = True
             tcp_connection.debug(f"[Socket-{self.sock_id}] Stream data has "\
                                  f"been queued into _send_buffer: "\
                                  f"{self._send_buffer.hex()}")
+        self.lock.release()
 
         self._write()
 
